@@ -330,8 +330,13 @@ class Struct(metaclass=MetaStruct):
                 field.ftype._to_buffer(buffer, foffset, fvalue, finfo)
 
     def _update(self, value):
-        # check if direct copy is possible
-        if isinstance(value, self.__class__) and value._size == self._size:
+        # check if direct copy is possible (references are stored relative to
+        # their own position: their bytes cannot be copied to another place)
+        if (
+            isinstance(value, self.__class__)
+            and value._size == self._size
+            and not self._has_refs
+        ):
             self._buffer.update_from_xbuffer(
                 self._offset, value._buffer, value._offset, value._size
             )
